@@ -139,7 +139,9 @@ def hostile_session(ctx, sid):
                 raw[1] &= 0x7f
             if len(raw) > 512:
                 raw = raw[:512]
-            s.data(t, bytes(raw))
+            # from somewhere else than the transceiver's own L1 (well-formed ones among them are
+            # dropped for their version, or because the transceiver is off)
+            s.data(t, bytes(raw), remote=("127.0.0.1", rng.choice([40000, 40001, 5700, 6700])) if rng.random() < 0.7 else None)
             kinds["data"] = kinds.get("data", 0) + 1
         elif r < 0.62:
             src = g.clck_src if g.running else 0
@@ -279,6 +281,7 @@ def trxcon_hostile(ctx, rounds):
     exe = T.build(ctx)
     rng = ctx.rng
     traces = []
+    fuzz = []
     nrsp = ndata = 0
     for k in range(rounds):
         tc = T.Trxcon(exe)
@@ -371,6 +374,9 @@ def trxcon_hostile(ctx, rounds):
                                   dict(datagram=list(raw)[:64], stderr=tc.crashed[1]))
                     break
                 inds = [e for e in rr["ev"] if e["k"] == "burst_ind"]
+                fuzz.append(dict(id="z%d" % len(fuzz), e="cfz", raw=list(raw), has=bool(inds),
+                                 ind=(dict(tn=inds[0]["tn"], fn=inds[0]["fn"], bits=inds[0]["bits"]) if inds
+                                      else dict(tn=-1, fn=-1, bits=[]))))
                 ok_len = n - 8 in (148, 150, 444, 446)
                 expect = n >= 8 and (raw[0] >> 4) == 0 and ok_len and int.from_bytes(raw[1:5], "big") < 2715648
                 if bool(inds) != bool(expect):
@@ -384,6 +390,18 @@ def trxcon_hostile(ctx, rounds):
         traces.append(dict(id="t%d" % k, cfg={}, ev=cev))
     ctx.extra["trxcon_hostile_responses"] = nrsp
     ctx.extra["trxcon_hostile_trxd"] = ndata
+    # what trx_if.c made of every hostile TRXD datagram, judged by TLC (TrxdTrace, record kind cfz)
+    if fuzz:
+        res, stats = tlc.validate_records("TrxdTrace.tla", "TrxdTrace.cfg", fuzz, scratch=ctx.scratch, parallel=3)
+        ctx.add_tv("TV TrxdTrace (trxcon's TRXD receive path on hostile datagrams)", stats, len(fuzz))
+        byid = {r["id"]: r for r in fuzz}
+        for v in res:
+            for tag in v["failed"]:
+                r = byid[v["id"]]
+                ctx.violation("C14/%s/len-%d" % (tag, len(r["raw"])),
+                              "TRXD datagram of %d octets (first octet 0x%02x): %s; indication tn=%s fn=%s"
+                              % (len(r["raw"]), r["raw"][0] if r["raw"] else 0, tag, r["ind"]["tn"], r["ind"]["fn"]),
+                              dict(datagram=r["raw"][:16], indication=dict(tn=r["ind"]["tn"], fn=r["ind"]["fn"], nbits=len(r["ind"]["bits"]))))
     return traces
 
 
@@ -398,7 +416,10 @@ def run(ctx):
         ctx.count()
         ctx.distinct(t["id"] + str(len(t["ev"])))
     ctx.extra["injected"] = kinds
-    FC.validate(ctx, traces, ("C14.",), "TV FakeTrxTrace (sessions with hostile datagrams injected)", discr)
+    # "... and goes on serving subsequent bursts correctly": after hostile input the bursts still reach
+    # exactly the right peers at their documented addresses
+    FC.validate(ctx, traces, ("C14.", "C12.ports", "C12.port-plan", "C02.missing-delivery", "C02.unexpected-delivery"),
+                "TV FakeTrxTrace (sessions with hostile datagrams injected)", discr)
     # (b) the message parser on hostile datagrams (ValueError only) - records judged by TrxdTrace
     recs = TC.python_records(ctx, ctx.pick(200, 2000), ctx.pick(1500, 60000))
     TC.judge(ctx, recs, ("C14.",), "TV TrxdTrace (parse_msg on mutated datagrams: only ValueError)")
